@@ -42,7 +42,7 @@ func measureGen(r *rand.Rand, n int, tier string, emit func(Case)) {
 				pts = append(pts, p)
 			}
 			ls := geom.NewLineString(seqOf(pts))
-			if ls.Validate() != nil {
+			if !genValid(ls) {
 				continue
 			}
 			g = ls.AsGeometry()
